@@ -13,6 +13,8 @@ TRANS_NOTE = ('Trusted base: TLC; Transport.tla / TransportTrace.tla; in-process
               'Bounds: <= 2 addresses, <= 3 callers, MaxConnsPerHost <= 3, clock <= 8 units.')
 CLI_NOTE = ('Trusted base: TLC; Client.tla / ClientTrace.tla; the scripted RoundTripper standing for Transport; hooks under Client.lock; the detector paced by the real '
             '100 ms ticker and released by a gate; estimate arithmetic re-computed in the harness. Bounds: <= 4 targets, <= 3 callers, <= 3 updates.')
+STREAM_NOTE = ('Trusted base: TLC; RpcStream.tla / RpcStreamTrace.tla (the trace specification follows the intended design only); the harness wire and puppet handler; '
+               'hooks under stream.mut (read/stop linearisation points); 2-3 s bounds for "blocked forever". Bounds: <= 3 streams per connection, <= 5 messages per direction in gated runs.')
 CLAIMED = {
  'C01': dict(level=MC, ref='6 C01', technique='TLC model checking of RpcConn + trace validation of TLC-driven executions of the real Conn/Server',
    text='Exhaustive TLC check (all interleavings of <=3-4 outstanding calls, all server completion orders, duplicate/unknown-sequence frames, every I/O mode) that a reply is F(own arguments) and sequence numbers are unique/echoed; TLC behaviours (random + deviation counterexamples EchoWrongSeq, SeqReuse) are replayed through the real code with payload sizes 0..70000 and every recorded trace is validated against the specification with the reply digest recomputed by the caller.',
@@ -32,6 +34,12 @@ CLAIMED = {
  'C06': dict(level=MC, ref='6 C06', technique='TLC model checking of RpcConn + trace validation of TLC-driven executions',
    text='TLC checks ErrToOwner / OkOnlyIfHandlerOk / MarshalFailNoResidue with failing and succeeding calls in flight together; replays compare the error text at the first signal and again after further traffic (ObsErrText), and the pending table after client-side encode failures.',
    note=CONN_NOTE),
+ 'C09': dict(level=MC, ref='6 C09', technique='TLC model checking of RpcStream.tla + trace validation of stream traffic of the real Conn/Server + ungated scenarios (poll mode)',
+   text='Exhaustive TLC check (1-2 streams, pushes and client messages, cut and close at any point) that each end reads a prefix of what the other wrote and that nothing written on an open stream is lost, with the open handshake in the code\'s own steps (register, ack, handler start, reader-side classification by the phase of the opening call); counterexamples of AckAfterHandlerStart / FlipInCaller / DupDeliver / CrossDeliver and random behaviours are replayed frame by frame on the real code with a puppet handler; every ReadMessage result, frame and dispatch is validated against the specification; ungated scenarios on UNIX sockets (fragmenting socket, poll-mode branch with 1-3 readers) check echo sequences of several streams interleaved with unary calls and pings.',
+   note=STREAM_NOTE),
+ 'C10': dict(level=MC, ref='6 C10', technique='TLC model checking (safety + liveness) of RpcStream.tla + trace validation + ungated close/disconnect scenarios incl. poll mode',
+   text='TLC checks StreamsStoppedAfterLoss / SiblingsUndisturbed and, under fairness of library steps and of readers, HandlersReturn / ClosedStreamUnblocks for ServeCodec and poll teardown; counterexamples of NoClientSweep / CloseWrongEntry / PollNoStreamSweep and random behaviours are replayed; at the end of every run no ReadMessage, NewStream or Close may still be blocked and every handler must have been able to return; scenarios close streams or drop the connection under blocked reads on poll and non-poll servers with sibling streams.',
+   note=STREAM_NOTE),
  'C13': dict(level=MC, ref='6 C13', technique='TLC model checking of Transport.tla + trace validation of pool decisions of the real rpc.Transport',
    text='Exhaustive TLC check of PoolBound / IdleBound / OpenBound / NoLeak over all interleavings of concurrent getConn (three paths), call registration and return, housekeeping passes, CloseIdleConnections, Close and server kill/restart; TLC behaviours, the counterexamples of DialNoLimit / EnqueueNoLimit / OverflowNotClosed and ungated concurrent bursts (including non-positive and over-large limits) are run on the real Transport; every pool decision, stamped under connsMu, is replayed on the model and the bounds are evaluated in every state.',
    note=TRANS_NOTE),
